@@ -568,18 +568,32 @@ def accOK (hp : Nat × Nat) (reads : List Int) (pseq : Nat) (pn : Int) (o : Obs)
 /-- the payload samples of a packet as the decoder can reproduce them -/
 def samples (d : Data) : List Int := d.vals
 
-/-- Round trip: what decoding the encoding of the constructed packet `p` must reproduce. -/
-def rtClauses (p : Packet) (nbytes : Nat) (o : Obs) : List (String × Bool) :=
-  [ ("version", o.v == p.version),
-    ("source", o.src == p.src),
-    ("seqnum", o.seq == p.seq),
-    ("offset", match o.ci with | .ok (_, off) => off == p.offset | .pan _ => false),
-    ("shape", o.sh == p.shape.map (·.filter (· > 0))),
-    ("payload", samples o.data == samples p.data && (p.data.len == 0 || o.data.kind == p.data.kind)),
-    ("timestamp", o.ts == tsCounter p),
+/-- what the round-trip statement says about a constructed packet: the fields that must survive -/
+structure Summary where
+  v : Nat
+  src : Nat
+  seq : Nat
+  off : Nat
+  sh : Option (List Int)
+  ts : Option Nat
+  data : Data
+deriving DecidableEq, Repr
+
+def summarize (p : Packet) : Summary :=
+  { v := p.version, src := p.src, seq := p.seq, off := p.offset, sh := p.shape, ts := tsCounter p, data := p.data }
+
+/-- Round trip: what decoding the encoding of the constructed packet (summary `c`) must reproduce. -/
+def rtClauses (c : Summary) (nbytes : Nat) (o : Obs) : List (String × Bool) :=
+  [ ("version", o.v == c.v),
+    ("source", o.src == c.src),
+    ("seqnum", o.seq == c.seq),
+    ("offset", match o.ci with | .ok (_, off) => off == c.off | .pan _ => false),
+    ("shape", o.sh == c.sh.map (·.filter (· > 0))),
+    ("payload", samples o.data == samples c.data && (c.data.len == 0 || o.data.kind == c.data.kind)),
+    ("timestamp", o.ts == c.ts),
     ("whole", o.consumed == nbytes) ]
 
-def rtOK (p : Packet) (nbytes : Nat) (o : Obs) : Bool := (rtClauses p nbytes o).all (·.2)
+def rtOK (c : Summary) (nbytes : Nat) (o : Obs) : Bool := (rtClauses c nbytes o).all (·.2)
 
 /-- first failing clause -/
 def firstFail : List (String × Bool) → Option String
@@ -599,7 +613,7 @@ inductive Out where
   | dec (d : DecOut)
   | ctorPanic (idx : Int) (cls : String)
   | ctorErr (idx : Nat)
-  | bytes (bs : List Nat) (d : DecOut)
+  | bytes (c : Summary) (bs : List Nat) (d : DecOut)
 deriving Repr
 
 inductive Op where
@@ -755,10 +769,26 @@ def line : P Line := do
       let c ← tok
       pure (Out.ctorPanic i c)
     | "Z" => do let i ← nat; pure (Out.ctorErr i)
-    | "B" => do
+    | "S" => do
+      kw "v"; let v ← nat
+      kw "src"; let src ← nat
+      kw "seq"; let seq ← nat
+      kw "off"; let off ← nat
+      kw "sh"
+      let sh ← do
+        match (← peek) with
+        | some "-1" => do let _ ← tok; pure none
+        | _ => do let l ← list int; pure (some l)
+      kw "ts"
+      let ts ← do
+        match (← peek) with
+        | some "-1" => do let _ ← tok; pure none
+        | _ => do let t ← nat; pure (some t)
+      kw "data"; let dt ← data
+      kw "B"
       let bs ← bytes
       let d ← decOut
-      pure (Out.bytes bs d)
+      pure (Out.bytes { v, src, seq, off, sh, ts, data := dt } bs d)
     | _ => do
       -- a decode output: put the token back
       let d ← (fun ts => decOut (t :: ts))
@@ -855,7 +885,7 @@ def runLine (ts : List String) : Verdict :=
     | .script v src seq off ops, out =>
       -- the unit words of the timestamp TLV, read from the implementation's bytes
       let unit : Nat × Nat := match out with
-        | .bytes bs _ => (be16 (bs.getD 28 0) (bs.getD 29 0), be16 (bs.getD 30 0) (bs.getD 31 0))
+        | .bytes _ bs _ => (be16 (bs.getD 28 0) (bs.getD 29 0), be16 (bs.getD 30 0) (bs.getD 31 0))
         | _ => (0, 0)
       let mp := runOps unit (newPacket v src seq off) ops 0
       (match mp, out with
@@ -869,22 +899,23 @@ def runLine (ts : List String) : Verdict :=
         if i == j then .ok ["newdata-err", "newdata-dims"] else .diff s!"NewData error at op {j}, model at op {i}"
       | .error (i, _), _ => .diff s!"model: NewData fails at op {i}; implementation does not"
       | .ok _, .ctorErr j => .diff s!"implementation: NewData error at op {j}; model accepts"
-      | .ok p, .bytes bs d =>
+      | .ok p, .bytes c bs d =>
         (match encode p with
         | .pan c => .diff s!"model Bytes() panics {c.str}"
         | .ok mbs =>
-          -- oracle on the implementation's output
+          -- oracle on the implementation's output: the real decoded packet against the real constructed one
           let jd := judgeDec bs ln.reads ln.pseq ln.pn d
-          let wf := match p.shape with | some s => wfShape s | none => true
+          let wf := match c.sh with | some s => wfShape s | none => true
           let rt : Option String := match d with
-            | .ok o => (firstFail (rtClauses p bs.length o)).map fun c =>
-                s!"C15:roundtrip-{c} decode(encode(p)) does not reproduce '{c}'"
+            | .ok o => (firstFail (rtClauses c bs.length o)).map fun cl =>
+                s!"C15:roundtrip-{cl} decode(encode(p)) does not reproduce '{cl}'"
             | .err e _ => if wf then some s!"C15:roundtrip-undecodable decode(encode(p)) fails with {e}" else none
           match jd, rt with
           | .error v, _ => .viol v
           | _, some v => .viol v
           | .ok tags, none =>
-            if mbs != bs then .diff s!"Bytes(): first difference at byte {(firstDiff mbs bs 0).getD 0}"
+            if summarize p != c then .diff "constructed packet: model and implementation differ (version/source/seq/offset/shape/timestamp/data)"
+            else if mbs != bs then .diff s!"Bytes(): first difference at byte {(firstDiff mbs bs 0).getD 0}"
             else
               let m := modelDec bs ln.reads ln.pseq ln.pn
               if m == d then .ok (tags ++ (if wf then ["rt"] else ["rt-noshape"]) ++
